@@ -5,14 +5,17 @@
   The equality proofs (`Umya/Lemmas/FnsGen*.lean`, one file per area so that a broken obligation only
   affects the properties that rest on it) are written against whatever the compiler produced on this
   run.  They do not compare syntax: both sides are brought to a normal form of `Option` programs
-  (`opt_norm`: checked operations become guards `guardO P x`, binds are right-nested, maps pushed to
-  the leaves) and compared node by node (`opt_eq`): conditionals by case split with contradictory
-  branches closed by `omega`, guards by `omega` on the equivalence of the guard conditions (so the order
-  in which overflow checks happen is irrelevant), values by congruence + `omega`.  A renamed local, a
+  (`opt_norm`: checked operations and slices become guards `guardO P x`, binds are right-nested and pushed
+  through conditionals, maps pushed to the leaves); then EVERY conditional of both sides is split, every bind
+  of an opaque option (a parse, an extern) is turned into a `match` and split too — wherever it stands, so the
+  order of independent statements is irrelevant — and the leaves are compared (`opt_leaf`): guards by `omega`
+  on the equivalence of the guard conditions (so the order in which overflow checks happen is irrelevant),
+  values by congruence + `omega`, excluded paths by `omega` on the path conditions.  A renamed local, a
   swapped `if` with negated condition or a commuted sum still proves; a changed constant, operator or
   branch does not.
 -/
 import Umya.Model.Gen.Fns
+import Umya.Lemmas.GenTactics
 namespace Umya.Gen
 
 /-- `if P then x else none`, kept folded so that `split` only sees the program's own conditionals -/
@@ -68,16 +71,69 @@ theorem tdiv_pos_lit (a k : Int) (_hk : 0 < k) : a.tdiv k = if 0 ≤ a then a / 
   · have : a = -(-a) := by omega
     rw [this, Int.neg_tdiv, Int.tdiv_eq_ediv_of_nonneg (by omega)]; simp
 
+theorem guardO_none {α} (P : Prop) [Decidable P] : guardO P (none : Option α) = none := by
+  unfold guardO; split <;> rfl
+
+theorem guardO_eq_some_iff {α} (P : Prop) [Decidable P] (a b : α) : guardO P (some a) = some b ↔ P ∧ a = b := by
+  unfold guardO; by_cases h : P <;> simp [h]
+
+theorem guardO_eq_none_iff {α} (P : Prop) [Decidable P] (a : α) : guardO P (some a) = none ↔ ¬ P := by
+  unfold guardO; by_cases h : P <;> simp [h]
+
+/-- a bind of an opaque option (an extern, a parse) as a `match`, so that `split` can take it apart wherever it stands -/
+theorem bind_as_match {α β} (o : Option α) (f : α → Option β) :
+    o.bind f = match o with | none => none | some a => f a := by cases o <;> rfl
+
+theorem ite_bind' {α β} (c : Prop) [Decidable c] (a b : Option α) (f : α → Option β) :
+    (if c then a else b).bind f = if c then a.bind f else b.bind f := by split <;> rfl
+
+theorem ite_map' {α β} (c : Prop) [Decidable c] (a b : Option α) (f : α → β) :
+    (if c then a else b).map f = if c then a.map f else b.map f := by split <;> rfl
+
 /-- linear integer arithmetic with truncating division by positive literals: `omega` with the divisions as atoms;
-    if that fails, after sorting sums and products (so that `a * 3` and `3 * a` under a division are one atom);
-    if that fails too, with the truncating divisions expanded into floor divisions by cases on the sign -/
+    if that fails, with the literals of products and sums moved to canonical places (`Lemmas/GenTactics.lean`) (so that `a * 3` and `3 * a` under a
+    division are one atom; terminating, no AC rewriting); if that fails too, with the truncating divisions expanded into
+    floor divisions by cases on the sign -/
 macro "arith" : tactic => `(tactic| first
   | omega
-  | (simp only [Int.mul_comm, Int.mul_left_comm, Int.add_comm, Int.add_left_comm, Nat.mul_comm, Nat.mul_left_comm,
-      Nat.add_comm, Nat.add_left_comm] at *; omega)
-  | (simp (disch := decide) only [tdiv_pos_lit] at *; omega))
+  | (simp only [mulLitLeft, addLitRight] at *; omega)
+  | (simp (disch := decide) only [tdiv_pos_lit] at *; omega)
+  | (simp only [mulLitLeft, addLitRight] at *; simp (disch := decide) only [tdiv_pos_lit] at *; omega))
 
 syntax "arith_congr" : tactic
 macro_rules | `(tactic| arith_congr) => `(tactic| first | rfl | arith | (congr 1 <;> arith_congr))
+
+/-- small `Option` / `Nat` programs: checked subtraction as a plain conditional, binds pushed through conditionals,
+    Boolean conditions (of the goal and of the hypotheses) as propositions -/
+macro "fn_norm" : tactic => `(tactic| simp only [usub, i32c, ite_bind', ite_map', Option.bind_some, Option.bind_none, Option.map_some,
+    Option.map_none, Option.bind_assoc, Bool.or_eq_true, Bool.and_eq_true, Bool.or_eq_false_iff, Bool.and_eq_false_iff, Bool.not_eq_true',
+    Bool.not_eq_false', Bool.not_eq_true, Bool.not_eq_false, Bool.not_not, decide_eq_true_eq, decide_eq_false_iff_not, beq_iff_eq,
+    bne_iff_ne, ne_eq, Bool.true_eq_false, Bool.false_eq_true, eq_self, not_true_eq_false, not_false_eq_true, if_true, if_false,
+    ite_true, ite_false, ↓reduceIte] at *)
+
+/-- shape-independent equality of small programs: split EVERY conditional / match of both sides (normalising on the way),
+    close contradictory paths by `omega` on the path conditions and matching paths by `simp` + `omega` -/
+macro "fn_eq" : tactic => `(tactic|
+  ((try fn_norm)
+   repeat' (split <;> (try fn_norm))
+   all_goals (first
+     | rfl
+     | omega
+     | (exfalso; omega)
+     | (simp only [Option.some.injEq, reduceCtorEq] at * <;> omega)
+     | (simp_all <;> omega)
+     | simp_all)))
+
+/-- a leaf of an `Option` program in guard normal form (`guardO P (some v)`, `some v`, `none` on either side): the guard
+    conditions are equivalent, the values equal; or one side is guarded by a condition the path excludes -/
+macro "opt_leaf" : tactic => `(tactic| first
+  | rfl
+  | omega
+  | (exfalso; omega)
+  | (apply guardO_congr (by arith); intro _; first | rfl | (apply some_congr'; arith_congr))
+  | (apply some_congr'; arith_congr)
+  | (rw [guardO_false _ _ (by omega)])
+  | (symm; rw [guardO_false _ _ (by omega)])
+  | (unfold guardO; split <;> first | rfl | (exfalso; arith) | (apply some_congr'; arith_congr) | (split <;> first | rfl | (exfalso; arith) | (apply some_congr'; arith_congr))))
 
 end Umya.Gen
